@@ -404,3 +404,5 @@ MANIFEST = {
 }
 MANIFEST['note'] += (' Also decided here (necessary conditions shared between properties or added after the independent '
                      'change rounds, DESIGN.md 8.7): role of the successor IKE_SA (from C01), every sent request is the retained one (from C13), from_exception cannot raise. Rounds 7-8: every message is stamped by the IKE_SA it belongs to (generate_request / generate_response on self).')
+MANIFEST['note'] += (' Round 10: the retransmission timer re-emits the stored request only in states where it is outstanding '
+                     '(timer coverage per state, shared with C09 / C13 / C16).')
